@@ -286,6 +286,6 @@ def certInit (t : Table) : Cert :=
 
 /-- fixpoint iteration with fuel (the checker decides whether it was enough) -/
 def computeCert (t : Table) : Cert :=
-  (List.range 24).foldl (fun c _ => certRound t c) (certInit t)
+  (List.range 3).foldl (fun c _ => certRound t c) (certInit t)
 
 end LolHtml.Model
